@@ -425,9 +425,13 @@ func (e *entryValueMap) tryExpungeLocked() (isExpunged bool) {
 }
 
 func (m *ValueMap) ToJSON() ([]byte, error) {
+	return m.toJSONRaw(map[*VMValue]bool{})
+}
+
+// toJSONRaw 序列化时沿用调用方的循环引用检测集合，使经由字典/计算值属性形成的环也能被发现
+func (m *ValueMap) toJSONRaw(save map[*VMValue]bool) ([]byte, error) {
 	var lst [][]byte
 	var err error
-	save := map[*VMValue]bool{}
 	m.Range(func(key string, value *VMValue) bool {
 		var jsonKey []byte
 		var jsonData []byte
